@@ -13,6 +13,7 @@ META = {
 }
 ASSUMPTIONS = [
     'event granularity (see C01); task bodies do not throw (an exception in executeNext skips the decrement: C05)',
+    'pools with more than kStealRingSharing = 8 threads (two steal-ring groups: sizes 9, 12, 16) are covered by a few generated cases and by the deterministic cross-ring-steal probes (pool.pop.steal site 1 must appear: coverage cases_with_cross_ring_steal)',
     'quiescent point = every enrolled thread parked in the futex, blocked in the harness or finished, and all tiers empty in the snapshot; the counter is read '
     'with private access (same value as the guarded accessor ThreadPool::verifWorkRemaining())',
 ]
@@ -45,9 +46,40 @@ def public_effect(ctx, rows):
     ctx.broken.append('C08 public-effect case missing')
 
 
+def public_effect_recursive(ctx, rows):
+    """hook-free, pools with two steal-ring groups (after a cross-ring steal): with exactly floor(1.5 n) + 1 tasks pending, the pool-recursive
+    schedule() issued by the first task that runs must execute its task inline on that worker -- what a freshly constructed pool does;
+    a counter that drifted below the true value queues it instead"""
+    seen = 0
+    for c, p, o, v in rows:
+        if not str(c.get('name', '')).startswith('cross-steal'):
+            continue
+        seen += 1
+        ev = p['events']
+        gens = [(i, t, a) for i, (t, name, a, b) in enumerate(ev) if name == 'gen']
+        if p['status'] != 0 or not gens:
+            ctx.broken.append('C08 cross-steal probe did not complete: %s status %d' % (c['name'], p['status']))
+            continue
+        gi, gt, child = max(gens, key=lambda x: x[2])
+        bb = [(i, t) for i, (t, name, a, b) in enumerate(ev) if name == 'body.begin' and a == child]
+        cross = sum(1 for e in ev if e[1] == 'pool.pop.steal' and e[3] == 1)
+        inline = bool(bb) and bb[0][1] == gt and not any(ev[i][0] == gt and ev[i][1].startswith('pool.pop') for i in range(gi, bb[0][0]))
+        ctx.cov.setdefault('public_effect_recursive', []).append({'case': c['name'], 'cross_ring_steals': cross, 'child': child, 'generator_tid': gt,
+                                                                  'runner_tid': bb[0][1] if bb else None, 'inline': inline})
+        if cross == 0:
+            ctx.broken.append('C08 cross-steal probe %s no longer reaches the cross-ring steal (pool.pop.steal site 1)' % c['name'])
+        if not inline:
+            ctx.violation('pool-recursive schedule() with floor(1.5 n)+1 = %d tasks pending was queued instead of run inline on pool(%d) after %d cross-ring steal(s): '
+                          'the pending-work accounting is below the true value (a fresh pool runs it inline)' % (c['qlf'] + 1, c['n0'], cross),
+                          {'case': pc.line_of(c), 'cmd': 'echo "<case>" | build/harness/h_pool-*', 'output': o[:2000]})
+    if seen == 0:
+        ctx.broken.append('C08 cross-steal probes missing')
+
+
 def run(ctx):
     ctx.prove(models=['Model/PoolCheck.v', 'Model/C08Check.v'])
     rows = pc.run_pool(ctx, 'C08')
     pc.report(ctx, 'C08', rows, describe)
     public_effect(ctx, rows)
+    public_effect_recursive(ctx, rows)
     ctx.cov['cases_with_ring_drain_pop'] = sum(1 for _, p, _, _ in rows if any(e[1] in ('pool.drain.ring', 'pool.drain.steal') for e in p['events']))
